@@ -47,6 +47,8 @@ ASSUMPTIONS = [
     "sound inputs only: header rows given to a fixed writer fit the widths; too-long cells contain no blanks; in "
     "fixed data two cells of a column that are equal after stripping are spelled identically (so IsUnique is "
     "unambiguous); Integer cells come from a table of clear verdicts (0, 7, 42 accepted; -1, 100, x rejected)",
+    "neutral: whether the end-of-data verdicts and the cleanup happen inside close() or already when the rows are "
+    "exhausted (asserted: complete, and nothing further, by the time a second close() is called)",
     "built-in Text, Integer and IsUnique behave as C02/C03/C05 state (own small models here)",
     "the recording classes do not call reset() in their constructor; examples in the CID are left empty",
 ]
@@ -462,6 +464,17 @@ def _first_difference(expected, observed):
     return None
 
 
+def _edit_distance(a, b):
+    """Number of insertions and deletions that turn a into b."""
+    previous = list(range(len(b) + 1))
+    for i, x in enumerate(a, 1):
+        current = [i]
+        for j, y in enumerate(b, 1):
+            current.append(min(previous[j] + 1, current[j - 1] + 1, previous[j - 1] + 2 * (x != y)))
+        previous = current
+    return previous[-1]
+
+
 def _classify(index, e, o, expected, observed):
     """(direction, entry that names the difference)."""
     if o is None:
@@ -498,9 +511,11 @@ def compare_run(case, run, log, max_differences=4):
             difference = _first_difference(expected, observed)
             if difference is None:
                 return found
-            if best is None or difference[0] > best[1][0]:
-                best = (expected, difference)
-        expected, (index, e, o) = best
+            # judge against the allowed log that is closest to the observed one
+            rank = (_edit_distance(expected, observed), -difference[0])
+            if best is None or rank < best[2]:
+                best = (expected, difference, rank)
+        expected, (index, e, o) = best[:2]
         direction, entry = _classify(index, e, o, expected, observed)
         name = entry[0]
         if name in _SPECIAL:
